@@ -228,6 +228,18 @@ fn random_api(rep: &Reporter) {
         if !child.config().name.contains("StdRng") || !r.config().name.contains("StdRng") || r.config().seed != s {
             rep.violation("random:child-loses-backend", json!({"seed": s, "child_backend": child.config().name}));
         }
+        // byte streams and the `&mut Random` iterator are functions of the seed as well
+        let (mut f1, mut f2) = ([0u8; 24], [0u8; 24]);
+        Random::new(s).fill_bytes(&mut f1);
+        let _ = Random::new(s).try_fill_bytes(&mut f2);
+        let mut via_iter = Random::new(s);
+        let first_child = (&mut via_iter).into_iter().next().map(|mut c| c.next_u64());
+        if f1 != f2 || f1 == [0u8; 24] || first_child != Some(a[0].0) {
+            rep.violation("random:byte-stream-or-iterator-not-determined-by-seed", json!({"seed": s}));
+        }
+        if Random::testing().next_u64() != Random::new(0).next_u64() {
+            rep.violation("random:testing-generator-not-seeded-with-zero", json!({}));
+        }
         let mut r2 = Random::with_rng::<StdRng>(s);
         let mut c1 = r2.iter_children().next().unwrap();
         let mut d1 = Random::new(s).iter_children().next().unwrap();
